@@ -232,7 +232,8 @@ def rterm(t, rng=None):
             return '[' + sep.join(rterm(x, rng) for x in items) + ']'
         if cur[0] == 'v':
             return '[' + sep.join(rterm(x, rng) for x in items) + '|' + rterm(cur, rng) + ']'
-        raise ValueError('improper list not renderable')
+        # improper list: canonical functor notation
+        return "'.'(" + rterm(args[0], rng) + ',' + rterm(args[1], rng) + ')'
     if name in ('=', '\\=') and len(args) == 2:
         if rng and rng.random() < 0.2:
             return '%s(%s,%s)' % (name, rterm(args[0], rng), rterm(args[1], rng))
